@@ -490,6 +490,11 @@ def ptr_addr(I, a):
 def flatten(I, v, t):
     """value -> list of abstract bytes (little endian), or None"""
     d = I.types[t]
+    if hasattr(v, 'b') and hasattr(v, 'term') and not isinstance(v, AInt):
+        # SIMD vector: its bytes (terms are slices of the vector term)
+        if T.ENABLED and v.term is not None:
+            return [AInt(8, x.lo, x.hi, x.kz, x.ko, term=T.slice_(v.term, 8 * j, 8)) for j, x in enumerate(v.b)]
+        return list(v.b)
     ii = I.int_info(t)
     if ii:
         if not isinstance(v, AInt):
@@ -546,6 +551,11 @@ def flatten(I, v, t):
 
 def unflatten(I, bs, t):
     d = I.types[t]
+    from interp import is_simd_type
+    if is_simd_type(d) and len(bs) == 16:
+        import simd
+        term = T.cat(128, [b.term for b in bs]) if (T.ENABLED and all(b.term is not None for b in bs)) else None
+        return simd.Vec(t, [AInt(8, b.lo, b.hi, b.kz, b.ko) for b in bs], term)
     ii = I.int_info(t)
     if ii:
         n = ii[0] // 8
